@@ -7,6 +7,7 @@ import rules_guard  # noqa: F401
 import rules_iter  # noqa: F401
 import rules_state  # noqa: F401
 import rules_arith  # noqa: F401
+import rules_repair  # noqa: F401
 
 COMMON_ASSUME = [
     "clang 14 front end parses /repo as g++ 12 compiles it (same flags, -std=gnu++17, -UNDEBUG)",
@@ -115,6 +116,31 @@ PROPS = {
         "decided": ["locateRank is the identity and extractRank delegates to extract (R-BUCKET rank part)", "bucket arithmetic (R-BUCKET)",
                     "FM-index row <-> ID mapping (R-FMMAP)", "no sort on the build path of order-preserving kinds (R-NOSORT)"],
         "not_decided": ["the alphabetic property of Hu-Tucker codes (memcmp on encoded headers = string order) and suffix-array order (value-level)"],
+        "assumptions": COMMON_ASSUME,
+    },
+    "C19": {
+        "rules": ["R-MIRROR", "R-EXTENT", "R-DISPATCH", "R-SAVEPURE", "R-RESAVE"],
+        "explanation": "ONLY the last clause of the property (`the answers are unchanged after save/load`) is addressed, and only structurally: "
+                       "writer/reader agreement, allocation extents, tag dispatch, save purity and element-to-field restoration for the bundled classes "
+                       "the dictionaries persist and for the variants named in the property (BitSequenceRG/RRR/SDArray/DArray/375, WaveletTree, "
+                       "WaveletTreeNoptrs, their nodes, coders and mappers). The core of the property - rank/select/access equal their definitions - "
+                       "is value-level and NOT decided.",
+        "decided": ["save/load element-by-element agreement of every bundled class in the cone (R-MIRROR)", "allocation = saved extent (R-EXTENT)",
+                    "family dispatchers have an arm for every persisted class and the right tag (R-DISPATCH)", "save writes nothing but the stream (R-SAVEPURE)",
+                    "loaders restore elements into the fields save writes (R-RESAVE)"],
+        "not_decided": ["access/rank/select agree with their plain definitions for every bit vector, sampling parameter and alphabet: the core of the property (value-level)",
+                        "state recomputed at load (RRR sampling, RG rank directory) equals the built state"],
+        "assumptions": COMMON_ASSUME,
+    },
+    "C20": {
+        "rules": ["R-RPZERO", "R-RPWIDTH", "R-RPGAP", "R-MIRROR"],
+        "explanation": "Structural conditions of the Re-Pair contract: who may raise a pair frequency and under which guard (terminator exclusion), "
+                       "purge-before-extract on every path, identifier width computed as bits(rules+terminals) at every sizing site, and agreement of the "
+                       "gap-pointer encoding between the compressor (writer) and the five compaction loops (readers). The grammar's image is covered by R-MIRROR.",
+        "decided": ["no rule can contain symbol 0: guard dominates the only increment, purge precedes every extraction (R-RPZERO)",
+                    "identifier storage is sized with bits(rules+terminals) at every site (R-RPWIDTH)",
+                    "gap pointers: writer -t-1, readers -(v+1), loops advance (R-RPGAP)", "grammar survives save/load structurally (R-MIRROR)"],
+        "not_decided": ["losslessness of the pair-replacement bookkeeping (L, Heap, Hash invariants): value-level"],
         "assumptions": COMMON_ASSUME,
     },
     "C13": {
